@@ -1,3 +1,3 @@
 import CobaVerif.Driver.Loop
--- stub: replaced when the C08 model exists
-def main : IO Unit := Coba.J.runLoop (fun _ => .error "C08 driver not implemented")
+import CobaVerif.Driver.C08
+def main : IO Unit := Coba.J.runLoop Coba.C08.Driver.handle
